@@ -43,6 +43,8 @@ def run(chk):
         for prob_ in C.batch_contract(sh_.distance_to_surface, np.array([0.3, 1.0, -2.0, 4.0, 7.5, 0.0]), "f"):
             chk.violation("batch-contract", dict(cls=cls_, what=prob_)); break
         chk.count("batch-contract")
+        for prob_ in C.long_batch(sh_.distance_to_surface, np.array([0.3, 1.0, -2.0, 4.0, 7.5, 0.0]), "f"):
+            chk.violation("long-batch-vs-short", dict(cls=cls_, what=prob_))
     nshape = 40 if chk.tier == "quick" else 600
     nang = 40 if chk.tier == "quick" else 200
     chk.notes["rule"] = ("convex polygons (regular and irregular, 3-30 vertices, axis-aligned edges, in-plane rotation and offset), rounding radii 0 and "
